@@ -227,6 +227,16 @@ def run_unit(unit):
                     flag("done-data-stale", f"done.state.{sid} carries output stamp {data['k']} of {data.get('from')}, "
                          f"but the output evaluations of this completion are {sorted(stamps.get(data.get('from'), []))}", hist, ev)
             got = [(sid, ({"from": data["from"]} if isinstance(data, dict) and "from" in data else data)) for sid, data in got_full]
+            if mode != "leave":
+                # one external event = one transition of a universal machine: every state is entered at most once in this
+                # step, so a decorated state completes at most once in it - two onDone runs of one state are one too many
+                # whatever the reading of done-ness (the handler has no target here: the state is not left and re-entered)
+                seen_once: Dict[str, int] = {}
+                for sid, _d in got:
+                    seen_once[sid] = seen_once.get(sid, 0) + 1
+                twice = sorted(sid for sid, c in seen_once.items() if c > 1)
+                if twice:
+                    flag("onDone-twice-for-one-completion(" + byid[twice[0]].kind + ")", f"onDone of {twice} ran more than once in one step: {got}", hist, ev)
             kd = sorted(due, key=repr)
             kg = sorted(got, key=repr)
             if mode == "leave":
